@@ -371,6 +371,7 @@ type backend struct {
 	path string
 	l    net.Listener
 	srv  *http.Server
+	old  []*http.Server
 }
 
 type shadowFail struct {
@@ -448,12 +449,22 @@ func (b *backend) up() error {
 	return nil
 }
 
+// down stops listening (dials are refused from now on); connections that are already
+// established — requests parked in this backend — stay open until teardown.
 func (b *backend) down() {
 	if b.srv != nil {
 		b.l.Close()
-		b.srv.Close()
+		b.old = append(b.old, b.srv)
 		b.srv, b.l = nil, nil
 	}
+}
+
+func (b *backend) closeAll() {
+	b.down()
+	for _, s := range b.old {
+		s.Close()
+	}
+	b.old = nil
 }
 
 func (b *backend) ServeHTTP(w http.ResponseWriter, r *http.Request) {
@@ -508,6 +519,9 @@ func (k *kase) handlerJSON(st step, bad bool) []byte {
 	lb := map[string]any{"selection_policy": map[string]any{"policy": "first"}}
 	if st.r > 0 {
 		lb["retries"] = st.r
+		// a positive interval makes tryAgain select between its timer and ctx.Done(): a handler
+		// whose configuration is already unloaded deterministically stops retrying
+		lb["try_interval"] = int64(time.Millisecond)
 	}
 	m := map[string]any{
 		"upstreams":      ups,
@@ -925,7 +939,7 @@ func (k *kase) teardown() {
 		k.unload(c)
 	}
 	for _, b := range k.backends {
-		b.down()
+		b.closeAll()
 	}
 	k.mu.Lock()
 	for _, h := range k.objs {
